@@ -20,6 +20,9 @@ type C03Case struct {
 	Mode string         `json:"mode"` // generate-stdin | generate-id | format | update | compare | update-all | compare-all | format-all
 	K    int            `json:"k"`
 	Lab  []string       `json:"labels,omitempty"`
+	// VaryCwd: odd runs start in another working directory, one that holds its own toolchain.yaml and a
+	// regex-assembly directory with same-named files; the root is always given with -d, so nothing there counts
+	VaryCwd bool `json:"vary_cwd,omitempty"`
 }
 
 const c03Rules = `# OWASP CRS ver.4.0.0
@@ -83,13 +86,45 @@ func genC03(t *rapid.T) C03Case {
 		lab["exclude-files-with-same-definition-name"] = true
 		lab["include-except"] = true
 	}
+	// the same file name in include/ and in exclude/ with different content: the documented search order decides, every time
+	if rapid.IntRange(0, 3).Draw(t, "shadow") == 0 {
+		var names []string
+		for n := range g.Prog.Files {
+			names = append(names, n)
+		}
+		sort.Strings(names)
+		if len(names) > 0 {
+			n := rapid.SampledFrom(names).Draw(t, "shadowed")
+			other := "exclude/" + strings.TrimPrefix(n, "include/")
+			if strings.HasPrefix(n, "exclude/") {
+				other = "include/" + strings.TrimPrefix(n, "exclude/")
+			}
+			if _, taken := g.Prog.Files[other]; !taken {
+				g.Prog.Files[other] = []ragen.Line{{K: ragen.KEntry, T: "shadow"}, {K: ragen.KEntry, T: "shade"}}
+			}
+		} else {
+			g.Prog.Files["include/twin.ra"] = []ragen.Line{{K: ragen.KEntry, T: "from-include"}, {K: ragen.KEntry, T: "common"}}
+			g.Prog.Files["exclude/twin.ra"] = []ragen.Line{{K: ragen.KEntry, T: "from-exclude"}, {K: ragen.KEntry, T: "common"}}
+			g.Prog.Main = append(g.Prog.Main, ragen.Line{K: ragen.KInclude, File: "twin"})
+		}
+		lab["same-name-in-include-and-exclude"] = true
+	}
+	vary := rapid.IntRange(0, 2).Draw(t, "varycwd") == 0
+	if vary && rapid.Bool().Draw(t, "noconfig") {
+		// no toolchain.yaml below the root: nothing is inserted in cmdline blocks, wherever the process starts
+		g.Prog.Config, g.Prog.ConfigIsDir = nil, false
+		lab["no-configuration-file"] = true
+	}
+	if vary {
+		lab["working-directory-varies"] = true
+	}
 	// a second, independent assembly file for the --all modes is added by the check
 	mode := rapid.SampledFrom([]string{"generate-stdin", "generate-stdin", "generate-id", "format", "update", "compare", "update-all", "compare-all", "format-all", "format-check", "format-check-all", "format-check-all-github"}).Draw(t, "mode")
 	k := 6
 	if thorough() {
 		k = 16
 	}
-	return C03Case{Prog: g.Prog, Mode: mode, K: k, Lab: labelsOf(lab)}
+	return C03Case{Prog: g.Prog, Mode: mode, K: k, Lab: labelsOf(lab), VaryCwd: vary}
 }
 
 type c03Obs struct {
@@ -98,7 +133,9 @@ type c03Obs struct {
 	Tree   string
 }
 
-func c03Run(c C03Case) c03Obs {
+const c03DecoyConfig = "patterns:\n  anti_evasion:\n    unix: DECOY*\n    windows: DECOY*\n  anti_evasion_suffix:\n    unix: DECOYS\n    windows: DECOYS\n  anti_evasion_no_space_suffix:\n    unix: DECOYN\n    windows: DECOYN\n"
+
+func c03Run(c C03Case, run int) c03Obs {
 	sb := cli.NewSandbox("c03")
 	defer sb.Close()
 	tree := cli.Tree(c.Prog.Tree())
@@ -111,6 +148,19 @@ func c03Run(c C03Case) c03Obs {
 	root := sb.Path("crs")
 	if err := tree.Write(root); err != nil {
 		panic(err)
+	}
+	cwd := sb.Root
+	if c.VaryCwd && run%2 == 1 {
+		// another checkout's regex-assembly directory: its own configuration and same-named word lists
+		decoy := cli.Tree{"toolchain.yaml": c03DecoyConfig, "regex-assembly/toolchain.yaml": c03DecoyConfig, "932100.ra": "decoy\n", "include/": "", "exclude/": ""}
+		for n := range c.Prog.Files {
+			decoy[n] = "decoy-entry\n"
+			decoy["regex-assembly/"+n] = "decoy-entry\n"
+		}
+		if err := decoy.Write(sb.Path("elsewhere")); err != nil {
+			panic(err)
+		}
+		cwd = sb.Path("elsewhere")
 	}
 	cli.Freeze(root)
 	var args []string
@@ -139,7 +189,7 @@ func c03Run(c C03Case) c03Obs {
 	case "compare-all":
 		args = []string{"regex", "compare", "--all"}
 	}
-	r := cli.Run(cli.Opt{Dir: sb.Root, Stdin: stdin, Timeout: 30 * time.Second}, append([]string{"-d", root}, args...)...)
+	r := cli.Run(cli.Opt{Dir: cwd, Stdin: stdin, Timeout: 30 * time.Second}, append([]string{"-d", root}, args...)...)
 	// tree content (paths + bytes), independent of the sandbox location
 	t := cli.ReadTree(root)
 	names := make([]string, 0, len(t))
@@ -160,9 +210,9 @@ func checkC03(c C03Case) Outcome {
 	if k < 2 {
 		k = 2
 	}
-	first := c03Run(c)
+	first := c03Run(c, 0)
 	for i := 1; i < k; i++ {
-		o := c03Run(c)
+		o := c03Run(c, i)
 		if o != first {
 			what := "stdout"
 			switch {
